@@ -157,13 +157,36 @@ def qr_eval(s, nsym, k, rlo, rhi):
     return ev(s)
 
 
-def ceil_div_check(s, nsym, k):
-    """-> (ok, detail).  s must be q when r == 0 and q+1 when 1 <= r <= k-1 (n = k*q + r)."""
+def _guard_value(g, nsym, k, rlo, rhi):
+    """truth of a path guard in one remainder case: True / False / None (depends on q, or not about n at all)"""
+    try:
+        v = qr_eval(g, nsym, k, rlo, rhi)
+    except Unk:
+        return None
+    if v.a != 0:
+        return None
+    if v.lo == v.hi:
+        return v.lo != 0
+    if v.lo > 0 or v.hi < 0:
+        return True
+    return None
+
+
+def ceil_div_check(s, nsym, k, guards=()):
+    """-> (ok, detail).  s must be q when r == 0 and q+1 when 1 <= r <= k-1 (n = k*q + r).
+    `guards` = [(sym, polarity)] of the path the expression was computed on: a remainder case the path excludes is not judged
+    (the sibling path covers it)."""
     res = []
+    judged = 0
     for (rlo, rhi, want) in ((0, 0, 0), (1, k - 1, 1)):
+        if any(_guard_value(g, nsym, k, rlo, rhi) is (not p) for g, p in guards):
+            continue
+        judged += 1
         v = qr_eval(s, nsym, k, rlo, rhi)
         res.append((rlo, rhi, v))
         if not (v.a == 1 and v.lo == v.hi == want):
             return False, "for n = %d*q + r with r in [%d,%d] the expression evaluates to %r, expected q+%d" % (
                 k, rlo, rhi, v, want)
-    return True, "r=0 -> q ; r in [1,%d] -> q+1" % (k - 1)
+    if judged == 0:
+        raise Unk("the path excludes every remainder case")
+    return True, "r=0 -> q ; r in [1,%d] -> q+1" % (k - 1) if judged == 2 else "the remainder case of this path"
